@@ -281,6 +281,22 @@ func c18Cells(c *Ctx, s string) {
 		// text the cell read, its lines, height and width belong to THAT text
 		{"Stringer whose answer changes with every call", &c18Restless{base: s}},
 	}
+	// ... and the other carriers of a text the item zoo knows (named string types of this and of other packages,
+	// unnamed structs with promoted methods, types with look-alike methods, distinct types that print under one
+	// name - the numeric one first), plus numbers and a bool: whatever text a cell reports, its metrics are that text's
+	zoo := []string{"twinnameNum", "twinnameBool", "twinnameStr", "mystr", "tplhtml", "tplattr", "anonG", "anonPS", "anonSE", "lookS", "lookSB", "lookW", "lookH", "lookNone", "err", "bytes", "cellcycle2", "jsonnumber", "int64", "float", "fmtstr"}
+	if h := int(gen.Hash64("c18 carriers", s) % 1200); h%12 != 0 {
+		// (three of them per string, all of them for every twelfth string)
+		k := h % len(zoo)
+		zoo = []string{"twinnameNum", zoo[k], zoo[(k+7)%len(zoo)]}
+	}
+	for _, kind := range zoo {
+		spec := gen.ItemSpec{K: kind, Str: gen.Q(s), Num: int64(len(s)), Flt: float64(len(s)) / 8}
+		kinds = append(kinds, struct {
+			name string
+			item interface{}
+		}{"item zoo kind " + kind, spec.Make().Item})
+	}
 	for _, k := range kinds {
 		item := k.item
 		if k.name == "error" {
